@@ -129,6 +129,12 @@ def run_contains(case):
     coll = K.build_collection(case["coll"], case["entries"])
     order = K.iteration_cands(coll)
     fn = _STATE["sock_mod"].contains_ip_address
+    for prior in case.get("prior") or []:
+        # earlier, unrelated decisions of the same process: they must not influence this one
+        try:
+            fn(K.build_collection("list", prior["entries"]), prior["client"])
+        except Exception:
+            pass
     try:
         if case.get("allow_mask", True):
             r = fn(coll, case["client"])
